@@ -1,4 +1,6 @@
 """C25 — hy.repr of models reads back: registration exhaustiveness, attribute and children coverage of the printers."""
+CANON = True
+
 from .. import hysexp
 from .c28 import check as _c28  # noqa: F401
 from .c20 import check as _c20  # noqa: F401
